@@ -240,3 +240,55 @@ pub fn build_recipe_checked(r: &str) -> Option<Vec<u8>> {
     }
     Some(build_recipe(r))
 }
+
+/// DENSE length sweep of highly repetitive inputs: every length 0..=max of an all-zero run, a
+/// period-2 and a period-3 run after a 30-byte ramp — every residue of the repeat length
+/// modulo the LZ10 (18) and LZ11 (4096) reference limits occurs, in particular k·4096+1 / +2.
+pub fn dense_runs(tier: Tier) -> Vec<LzInput> {
+    let max = match tier {
+        Tier::Quick => 8_300usize,
+        Tier::Thorough => 20_600,
+    };
+    let mut v = Vec::with_capacity(3 * (max + 1));
+    for n in 0..=max {
+        v.push(recipe_input(format!("zeros:{}", n)));
+        v.push(recipe_input(format!("period:2:65:{}", n)));
+        v.push(recipe_input(format!("ramp:30+period:3:0:{}", n)));
+    }
+    v
+}
+
+/// "Twin blocks": two blocks that differ in exactly two adjacent bytes chosen so that the blocks
+/// have the SAME polynomial fingerprint h = h*M + byte for a common multiplier M (31: "Aa"/"BB",
+/// 33, 37, 131) — a match finder that trusts a fingerprint without comparing bytes emits a
+/// reference to the wrong block. Also same-sum twins (additive checksums). The twin sits inside
+/// the window; block lengths cover the LZ10 and LZ11 maximum match lengths.
+pub fn twin_blocks() -> Vec<LzInput> {
+    let mut v = Vec::new();
+    let filler = norepeat(5000, 77);
+    for m in [31u32, 33, 37, 131, 0] {
+        // (a, b) and (a+1, b-m) have equal a*m+b; m = 0 stands for the additive twin (a, b) / (a+1, b-1)
+        let (a, b) = (0x41u8, 0x20u8.wrapping_add(if m == 0 { 1 } else { m as u8 }));
+        let (c, d) = (a + 1, if m == 0 { b - 1 } else { b - m as u8 });
+        for len in [18usize, 19, 32, 273, 4096] {
+            for pos in [0usize, len / 2, len - 2] {
+                for gap in [0usize, 40] {
+                    let mut block: Vec<u8> = filler[100..100 + len].to_vec();
+                    block[pos] = a;
+                    block[pos + 1] = b;
+                    let mut twin = block.clone();
+                    twin[pos] = c;
+                    twin[pos + 1] = d;
+                    let mut data = filler[..7].to_vec();
+                    data.extend(&block);
+                    data.extend(&filler[4000..4000 + gap]);
+                    data.extend(&twin);
+                    data.extend(&filler[4100..4110]);
+                    data.extend(&block);
+                    v.push(LzInput { family: "twin", desc: format!("twin blocks m={} len={} pos={} gap={}", m, len, pos, gap), data });
+                }
+            }
+        }
+    }
+    v
+}
